@@ -295,7 +295,7 @@ def judge_query(case, q, code, model):
         rec["detail"] = {"code": code if code.get("status") != "ok" else None, "model": model}
         return rec
     code = code["result"]
-    rec["code"] = {k: code.get(k) for k in ("ran", "error", "final", "final_str", "final_fixed_limit", "names",
+    rec["code"] = {k: code.get(k) for k in ("ran", "error", "final", "final_str", "names",
                                             "code", "printed_line", "moment_values", "moment_forms")}
     exact = rec["exact_rows"]
     pev = Fr(model["pev"] if exact else model["gen_pev"])
@@ -605,7 +605,7 @@ def _slim_rec(r):
 def build_cases(tier):
     quick = tier == "quick"
     rnd = rng(f"{PROP}-{tier}")
-    n_valid, n_inexact, n_reserved, n_mal, n_syn = (70, 14, 10, 130, 16) if quick else (900, 150, 60, 1600, 120)
+    n_valid, n_inexact, n_reserved, n_mal, n_syn = (60, 12, 10, 110, 16) if quick else (900, 150, 60, 1600, 120)
     cases = []
     for i in range(n_valid):
         cases.append(make_valid_case(rnd, i, "valid"))
